@@ -263,7 +263,13 @@ func (f *DefaultFanController) UpdateFanSpeed() error {
 func (f *DefaultFanController) RunInitializationSequence() (err error) {
 	fan := f.fan
 
-	err1 := f.computePwmMap()
+	// the whole analysis of one fan (PWM map sweep and RPM curve measurement) is one critical section
+	if !configuration.CurrentConfig.RunFanInitializationInParallel {
+		InitializationSequenceMutex.Lock()
+		defer InitializationSequenceMutex.Unlock()
+	}
+
+	err1 := f.computePwmMapUnlocked()
 	if err1 != nil {
 		ui.Warning("Error computing PWM map: %v", err1)
 	}
@@ -573,7 +579,11 @@ func (f *DefaultFanController) computePwmMap() (err error) {
 		InitializationSequenceMutex.Lock()
 		defer InitializationSequenceMutex.Unlock()
 	}
+	return f.computePwmMapUnlocked()
+}
 
+// computePwmMapUnlocked is computePwmMap for callers that already hold InitializationSequenceMutex
+func (f *DefaultFanController) computePwmMapUnlocked() (err error) {
 	var configOverride *map[int]int
 
 	switch f := f.fan.(type) {
